@@ -35,6 +35,7 @@ fn required(plan: &Plan) -> Vec<String> {
         }
     }
     v.push("next-generation:compared".into());
+    v.push("read-item-source:holds-other-items".into());
     v
 }
 
@@ -51,6 +52,13 @@ pub fn run<E: Entry>(ctx: &mut Ctx) {
         ctx.end_history();
         return;
     };
+    // the region that read items are taken from holds other, wider and longer items as well
+    if h % 2 == 1 {
+        let other: Vec<E::V> = <E::V as Val>::gen_run(&mut ctx.rng, Dom::new(Kind::Long), 3);
+        a.prefill_aux(&other);
+        a.prefill_aux(&pool);
+        ctx.cover("read-item-source:holds-other-items");
+    }
     let mut last: Option<E::V> = None;
     for k in 0..n {
         let v = draw::<E>(ctx, &pool, last.as_ref());
@@ -113,6 +121,17 @@ pub fn run_stack<E: Entry, S: IdxC<Idx<E>>>(ctx: &mut Ctx) {
     let mut a = LiveStack::<E, S>::new("a");
     let mut t = LiveStack::<E, S>::new("canonical");
     ctx.log(format!("a, canonical = FlatStack<{}, {}>::default()", E::label(), S::KIND));
+    if (ctx.hist_no / 3) % 2 == 1 {
+        // the region that read items are taken from holds other, wider items as well
+        let other: Vec<E::V> = <E::V as Val>::gen_run(&mut ctx.rng, Dom::new(Kind::Long), 3);
+        let aux = &mut a.aux;
+        let _ = crate::panics::catch(|| {
+            let mut dummy = E::R::default();
+            for v in other.iter().chain(pool.iter()) {
+                let _ = E::push(aux, v, 0, &mut dummy);
+            }
+        });
+    }
     for k in 0..n {
         let v = pool[k].clone();
         let form = ctx.rng.below(nforms);
